@@ -573,6 +573,17 @@ func (c *Check) issueOrder() {
 				if listTerm != "" && whole > 1 {
 					missing["the appended list is announced in pieces or more than once (an id's index is a position in one event)"] = true
 				}
+				// the list is announced in the order it was appended in (the order of the ids' indexes): it is not handed to a
+				// sorting or otherwise reordering routine before it is marshalled
+				for _, ev := range pa.Events {
+					if ev.Kind == EvCall && listTerm != "" && (strings.HasPrefix(ev.CI.name, "sort.") || strings.Contains(ev.CI.name, "Shuffle") || strings.Contains(ev.CI.name, "Reverse")) {
+						for _, a := range ev.CI.args {
+							if strings.Contains(a.String(), listTerm) {
+								missing["the event list is reordered ("+ev.CI.name+") before it is announced: positions no longer match the ids' indexes"] = true
+							}
+						}
+					}
+				}
 				if whole == 1 {
 					anyWhole = true
 				}
